@@ -1,6 +1,7 @@
 package main
 
 import (
+	"os"
 	"fmt"
 	"go/ast"
 	"go/token"
@@ -639,6 +640,12 @@ func (e *Exec) callFunction(fr *Frame, st *State, in ssa.Instruction, callee *ss
 		return e.inlineCall(fr, st, in, callee, args, binds, rt)
 	}
 	e.note("uncontracted-call: %s calls %s (result and heap havocked)", dispName(fr.fn), dispName(callee))
+	for i, a := range args {
+		if a.Shared != "" {
+			e.oblige(st, e.ordinalName(fr, in, "shared")+fmt.Sprintf(":arg%d", i), "discipline", e.sharedTags(), "false",
+				fmt.Sprintf("a value that other goroutines may use at the same time (%s) is handed to %s, which has no contract", a.Shared, dispName(callee)), in.Pos())
+		}
+	}
 	e.havocAll(st)
 	r := e.freshVal("res_"+sanitize(callee.Name()), rt, kindOf(rt))
 	e.typeFacts(r, rt, st)
@@ -765,6 +772,38 @@ func (e *Exec) callModular(fr *Frame, st *State, in ssa.Instruction, fc *FuncCon
 		tags := c.Tags
 		e.oblige(st, name, "pre", tags, g, c.Text, in.Pos())
 	}
+	// values shared with other goroutines may only flow into pure code or into parameters declared `shared`
+	anyShared := ""
+	for i, a := range args {
+		if a.Shared == "" {
+			continue
+		}
+		anyShared = a.Shared
+		pname := ""
+		j := i
+		if callee != nil && callee.Signature.Recv() != nil || callee == nil {
+			j = i - 1
+		}
+		if j < 0 {
+			pname = "self"
+			if fc.Recv != nil {
+				pname = fc.Recv.Name
+			}
+		} else if j < len(fc.Params) {
+			pname = fc.Params[j].Name
+		}
+		name := fmt.Sprintf("call:%s#%d:shared:%s", siteName, k, pname)
+		if !fr.top {
+			name = fr.site + "/" + name
+		}
+		if fc.Pure || contains(fc.Shared, pname) || (j < 0 && contains(fc.Shared, "self")) {
+			e.oblige(st, name, "discipline", e.sharedTags(), "true",
+				fmt.Sprintf("a value that other goroutines may use at the same time (%s) flows only into pure code or into a parameter declared shared (%s of %s)", a.Shared, pname, calleeName), in.Pos())
+			continue
+		}
+		e.oblige(st, name, "discipline", e.sharedTags(), "false",
+			fmt.Sprintf("a value that other goroutines may use at the same time (%s) is handed to %s as %s; the callee is not pure and does not declare that parameter shared", a.Shared, calleeName, pname), in.Pos())
+	}
 	// havoc
 	if !fc.Pure {
 		for _, m := range fc.Modifies {
@@ -801,6 +840,18 @@ func (e *Exec) callModular(fr *Frame, st *State, in ssa.Instruction, fc *FuncCon
 	_ = sig
 	if fc.ChanResult != "" && len(results) == 1 {
 		results[0].Origin = "chanlog:" + fc.ChanResult
+	}
+	for i := range results {
+		rn := ""
+		if i < len(fc.Results) {
+			rn = fc.Results[i].Name
+		}
+		if rn != "" && contains(fc.Shared, rn) {
+			results[i].Shared = "result " + rn + " of " + calleeName
+		} else if anyShared != "" && fc.Pure && results[i].K == KRef {
+			// what pure code returns for a shared argument may be part of it
+			results[i].Shared = anyShared
+		}
 	}
 	qenv := &Env{e: e, pkg: pk, vars: map[string]Val{}, st: st, old: penv, ctx: "call to " + calleeName}
 	for n, v := range penv.vars {
@@ -1079,8 +1130,14 @@ func (e *Exec) softly(f func()) {
 	depth := len(e.readTrace)
 	defer func() {
 		if r := recover(); r != nil {
-			if _, ok := r.(softFail); ok {
+			if sf, ok := r.(softFail); ok {
 				e.readTrace = e.readTrace[:depth]
+				if os.Getenv("GOVC_DEBUG_SOFT") != "" {
+					fmt.Fprintf(os.Stderr, "govc: soft failure in %s: %v\n", e.name, sf)
+				}
+				// a callee clause that cannot be interpreted at this call site is dropped (that only
+				// weakens what the caller may assume); it is listed in the evidence notes
+				e.note("callee-clause-dropped: a clause of a callee could not be interpreted at a call site in %s (%v)", e.name, sf)
 				return
 			}
 			panic(r)
@@ -1223,4 +1280,27 @@ func freeVarWritten(fn *ssa.Function, fv *ssa.FreeVar, seen map[*ssa.Function]bo
 		}
 	}
 	return false
+}
+
+// sharedTags: the properties for which the `shared` discipline is declared anywhere in the module
+func (e *Exec) sharedTags() []string {
+	seen := map[string]bool{}
+	var out []string
+	add := func(fc *FuncContract) {
+		for _, t := range fc.SharedTags {
+			if !seen[t] {
+				seen[t] = true
+				out = append(out, t)
+			}
+		}
+	}
+	for _, k := range sortedKeys(e.P.CS.Funcs) {
+		add(e.P.CS.Funcs[k])
+	}
+	for _, ik := range sortedKeys(e.P.CS.Ifaces) {
+		for _, mk := range sortedKeys(e.P.CS.Ifaces[ik].Methods) {
+			add(e.P.CS.Ifaces[ik].Methods[mk])
+		}
+	}
+	return out
 }
